@@ -86,3 +86,13 @@ claim("C12",
       note="Over the reals (A1): the float32 cast inside scikit-learn is a recorded known finding. Assumed contract of Tree._add_node/predict. predict_leaves, "
            "tree_node_range, tree_node_parents only bounded.",
       technique="deductive verification: recursive contract + loop invariants over ghost tree semantics, z3")
+claim("C11",
+      text="Per configuration, complete in the input: for each of 128 configurations (n_features<=4, degree<=4, interaction_only, include_bias, kind poly / "
+           "poly-slow) the real fit / get_feature_names_out / transform (_transform_iall, _transform_ionly, _transform_poly_slow) are executed with loops unrolled "
+           "exactly and every output column is proved equal to its itertools monomial for ALL real matrices with any number of rows; n_output_features_ and the "
+           "names denote those monomials in scikit-learn's order; input never written. Bounded: larger configurations (up to 8 columns, degree 6, 12 columns at "
+           "degree 2) against PolynomialFeatures itself.",
+      note="The configuration space is bounded (that is the bound); no claim for all (n, degree). numpy.multiply(out=) broadcast and itertools order are "
+           "assumed. Names are compared as monomials (factor order inside a name is not part of the property: 'x10 x2' for n>=11).",
+      technique="deductive verification per configuration: exact unrolling + z3 polynomial identities over symbolic inputs",
+      category="other")
